@@ -117,8 +117,10 @@ def generate(rng, tier, idx):
     # the Manifest still records a FILE at the path where the other filesystem is now linked in (a recorded file
     # later replaced by a link to a directory elsewhere); used for one-file-system verification only
     file_entry_for_ext = ext and rng.random() < 0.4
+    file_entry_in_hidden_ext = ext and rng.random() < 0.5
     return {'prop': ID, 'order_key': '%016x' % rng.getrandbits(64), 'tree': tree, 'mounts': mounts,
-            'ignores': ignores, 'ops': ops, 'unreg': unreg, 'file_entry_for_ext': bool(file_entry_for_ext)}
+            'ignores': ignores, 'ops': ops, 'unreg': unreg, 'file_entry_for_ext': bool(file_entry_for_ext),
+            'file_entry_in_hidden_ext': bool(file_entry_in_hidden_ext)}
 
 
 def dev_of(mounts, base, realpath, default):
@@ -215,6 +217,7 @@ def execute(sc):
                 # the scan inspects directories only; it neither verifies nor records files
                 foreign = [v for v in foreign if v == '' or v in g['dirs']]
             has_loop = bool(g['loops'])
+            hidden_foreign = None
             # (re)write the Manifest: earlier update ops may have rewritten it
             for ud in sc.get('unreg', []):
                 # present (and empty) for the operations that scan for unregistered Manifests, absent for verification
@@ -237,6 +240,19 @@ def execute(sc):
                     if extl:
                         mt_ = manifest_text + G.dump([{'tag': 'DATA', 'path': extl[0], 'size': 0, 'sums': {}}])
                         counters['file_entry_at_foreign_directory'] = counters.get('file_entry_at_foreign_directory', 0) + 1
+                if sc.get('file_entry_in_hidden_ext') and kind in ('verify', 'verify-kg', 'cli-verify', 'cli-verify-2'):
+                    # a listed file inside a directory the walk never enters (a dot-directory) that lies on the other
+                    # filesystem: still a non-ignored file on a different device
+                    hl = sorted(t_['p'][5:] for t_ in sc.get('tree', []) if t_.get('k') == 'symlink' and t_['t'].endswith('mnt1')
+                                and os.path.basename(t_['p']).startswith('.') and not any(c.startswith('.') for c in t_['p'][5:].split('/')[:-1]))
+                    hl = [h for h in hl if not any(h == i_ or h.startswith(i_ + '/') for i_ in ignores)
+                          and os.path.dirname(h) in ([''] + g['dirs']) and os.path.isfile(os.path.join(root, h, 'm0'))]
+                    if hl:
+                        with _o['open'](os.path.join(root, hl[0], 'm0'), 'rb') as f:
+                            d_ = f.read()
+                        mt_ = mt_ + G.dump([{'tag': 'DATA', 'path': hl[0] + '/m0', 'size': len(d_), 'sums': G.digests(d_, ['SHA256'])}])
+                        hidden_foreign = hl[0]
+                        counters['listed_file_in_hidden_foreign_directory'] = counters.get('listed_file_in_hidden_foreign_directory', 0) + 1
                 with _o['open'](top, 'w', encoding='utf8') as f:
                     f.write(mt_)
             walks = {'verify': 1, 'verify-kg': 1, 'cli-verify': 1, 'cli-verify-2': 2, 'unregistered': 1}.get(kind, 4)
@@ -301,7 +317,7 @@ def execute(sc):
                 continue
             is_loop = (r[0] == 'GE' and r[1] == 'ManifestSymlinkLoop')
             is_xdev = (r[0] == 'GE' and r[1] == 'ManifestCrossDevice')
-            expect_xdev = (not xdev) and bool(foreign)
+            expect_xdev = (not xdev) and (bool(foreign) or hidden_foreign is not None)
             if g['file_loops'] and r[0] == 'OS' and r[1] == 'ELOOP':
                 zones['file-symlink-loop-oserror'] = zones.get('file-symlink-loop-oserror', 0) + 1
                 continue
